@@ -77,11 +77,15 @@ func eligible(v any) bool {
 	return true
 }
 
-// norm canonicalises a rendered location: empty segments are dropped. The
-// library renders the same location with or without a separator next to an
-// empty root path or an empty member name (".a", "a", "..0", "0"), so names are
-// compared modulo empty segments.
-func norm(_, name string) string {
+// norm canonicalises a rendered location. With an empty root path the library
+// renders the same location with or without a leading separator, and an empty
+// member name then disappears altogether (".a", "a", "..0", "0"): there names are
+// compared modulo empty segments. Below a non-empty root path names are compared as they are.
+func norm(root, name string) string {
+	if root != "" {
+		// below a non-empty root path every member, the one with the empty name included, has one rendering
+		return name
+	}
 	var segs []string
 	for _, s := range strings.Split(name, ".") {
 		if s != "" {
